@@ -1,4 +1,106 @@
 package schema
 
-// RandomFiles is filled in by random_gen.go (seeded random schemas); see there.
-var RandomFiles = func(c *Ctx, seed uint64, n int) []*FileSpec { return nil }
+import (
+	"fmt"
+	"math/rand"
+)
+
+// RandomFiles builds n seeded random schema files over the same grammar as the feature matrix: 1-5
+// messages per file, up to 8 fields each, every scalar kind, enums, message references (also
+// recursive), maps, real oneofs, proto3 optional (where the variant supports it), proto2 required /
+// packed fields, message-scoped extensions of message type, nesting depth up to 2.  The result is a pure
+// function of (ctx, seed, n): every VERIF_SEED explores new feature combinations, and the same seed
+// regenerates the same schemas for replay.
+var RandomFiles = func(c *Ctx, seed uint64, n int) []*FileSpec {
+	var out []*FileSpec
+	for i := 0; i < n; i++ {
+		r := rand.New(rand.NewSource(int64(seed)*7919 + int64(i)*104729 + 17))
+		syntax := "proto3"
+		if r.Intn(2) == 0 {
+			syntax = "proto2"
+		}
+		name := fmt.Sprintf("rnd%dx%d", seed, i)
+		f := c.File(name, syntax)
+		pkg := c.Pkg(name)
+		f.EnumType = append(f.EnumType, colorEnum())
+		nm := 1 + r.Intn(5)
+		var names []string
+		for j := 0; j < nm; j++ {
+			names = append(names, fmt.Sprintf("M%d", j))
+		}
+		for j, mn := range names {
+			m := Msg(mn)
+			num := int32(1)
+			nextNum := func() int32 {
+				v := num
+				switch r.Intn(6) {
+				case 0:
+					num += int32(1 + r.Intn(20))
+				case 1:
+					num += int32(2000 + r.Intn(100))
+				default:
+					num++
+				}
+				if num >= 19000 && num <= 19999 { // reserved for the protobuf implementation
+					num = 20000
+				}
+				return v
+			}
+			nf := 1 + r.Intn(8)
+			for k := 0; k < nf; k++ {
+				fname := fmt.Sprintf("f%d", k)
+				typ := ScalarKinds[r.Intn(len(ScalarKinds))]
+				switch r.Intn(7) {
+				case 0:
+					typ = "enum:" + FullName(pkg, "Color")
+				case 1:
+					typ = FullName(pkg, names[r.Intn(len(names))]) // may be recursive
+				}
+				isMsg := typ[0] == '.'
+				switch shape := r.Intn(10); {
+				case shape == 0 && !isMsg || shape == 1: // map
+					key := MapKeyKinds[r.Intn(len(MapKeyKinds))]
+					MapField(m, FullName(pkg, mn), fname, nextNum(), key, typ)
+				case shape == 2 || shape == 3: // repeated
+					fd := F(fname, nextNum(), Rep, typ)
+					if !isMsg && typ != "string" && typ != "bytes" && r.Intn(2) == 0 {
+						Packed(fd, r.Intn(2) == 0)
+					}
+					m.Field = append(m.Field, fd)
+				case shape == 4 && syntax == "proto3" && c.Proto3Opt:
+					AddP3Optional(m, F(fname, nextNum(), Opt, typ))
+				case shape == 5 && syntax == "proto2" && !isMsg:
+					m.Field = append(m.Field, F(fname, nextNum(), Req, typ))
+				default:
+					m.Field = append(m.Field, F(fname, nextNum(), Opt, typ))
+				}
+			}
+			if r.Intn(3) == 0 { // a real oneof
+				var members []*FP
+				for k := 0; k < 2+r.Intn(3); k++ {
+					typ := ScalarKinds[r.Intn(len(ScalarKinds))]
+					if r.Intn(4) == 0 {
+						typ = FullName(pkg, names[r.Intn(len(names))])
+					}
+					members = append(members, F(fmt.Sprintf("o%d", k), nextNum(), Opt, typ))
+				}
+				Oneof(m, "pick", members...)
+			}
+			if j == 0 && r.Intn(3) == 0 { // a nested message type used by a field
+				nested := Msg("Nested", F("x", 1, Opt, "sint32"), F("ys", 2, Rep, "bytes"))
+				m.NestedType = append(m.NestedType, nested)
+				m.Field = append(m.Field, F("nested", nextNum(), Opt, FullName(pkg, mn, "Nested")))
+			}
+			f.MessageType = append(f.MessageType, m)
+		}
+		if syntax == "proto2" && r.Intn(2) == 0 { // a message-typed extension declared in a top-level message
+			base := f.MessageType[0]
+			ExtRange(base, 5000, 5099)
+			holder := Msg("ExtHolder")
+			holder.Extension = append(holder.Extension, Ext("ext_msg", 5000, Opt, FullName(pkg, names[len(names)-1]), FullName(pkg, base.GetName())))
+			f.MessageType = append(f.MessageType, holder)
+		}
+		out = append(out, &FileSpec{Name: name, FD: f, Feature: "random-schema", Core: true})
+	}
+	return out
+}
